@@ -386,6 +386,9 @@ func redactPipelineStage(stage interface{}, redactFieldNames bool, keyPath []str
 						default:
 							newMap.Set(redactedKey, redactScalarValue([]string{k}, v, inSearchStage, false))
 						}
+					} else if vMap, ok := v.(*orderedmap.OrderedMap[string, any]); ok && !inSearchStage {
+						// an expression, not a field path: its literals are redacted
+						newMap.Set(redactedKey, redactPipelineStage(vMap, redactFieldNames, newKeyPath, inSearchStage))
 					} else {
 						newMap.Set(redactedKey, v)
 					}
@@ -467,6 +470,9 @@ func redactPipelineStage(stage interface{}, redactFieldNames bool, keyPath []str
 										default:
 											newSubMap.Set(subK, redactScalarValue([]string{k}, subV, inSearchStage, false))
 										}
+									} else if subVMap, ok := subV.(*orderedmap.OrderedMap[string, any]); ok && !inSearchStage {
+										// an expression, not a field path: its literals are redacted
+										newSubMap.Set(subK, redactPipelineStage(subVMap, redactFieldNames, append(newKeyPath, subK), inSearchStage))
 									} else {
 										newSubMap.Set(subK, subV)
 									}
